@@ -570,10 +570,16 @@ func (c *Ctx) sortedByCaller(fi *load.FuncInfo) {
 // listerFilters: C13.3/C10.4 (owner filter) and C13.4 (de-duplication) on the revision lister.
 func (c *Ctx) listerFilters(ownerRule, dedupRule string) {
 	// all uncached List sites on controllerrevisions in the controller package
+	// (a List inside a small wrapper counts for each function the wrapper is expanded into, once per call)
 	lists := map[*types.Func][]*eff.Site{}
-	for _, s := range c.G.Sites {
-		if s.Resource == "controllerrevisions" && s.Verb == "List" && s.Fn.Pkg().Path() == load.CtrlPkg {
-			lists[s.Fn] = append(lists[s.Fn], s)
+	for _, fi := range c.P.Funcs() {
+		if fi.Pkg.PkgPath != load.CtrlPkg || c.liftedAway(fi) {
+			continue
+		}
+		for _, ls := range c.sitesOf(fi) {
+			if ls.Resource == "controllerrevisions" && ls.Verb == "List" {
+				lists[fi.Obj] = append(lists[fi.Obj], ls.Site)
+			}
 		}
 	}
 	total := 0
